@@ -243,6 +243,7 @@ class Ctx:
         for p in getattr(self, "plugins", []):
             p.reset()
         self.speculating = 0
+        self.spec_logs = []
         self.if_conversion = not bool(os.environ.get("PYVC_NO_IFCONV"))
         self.entry_ids_all = _AnyId()
         PObj._n = 0
@@ -688,7 +689,17 @@ class Ctx:
         return NotImplemented
 
     def on_write(self, obj, field, val, node):
-        if self.speculating and id(obj) in self.entry_ids_all:
+        if self.speculating:
+            from .interp import _MISSING
+
+            # scalar store into an attribute or an existing list slot: logged (rolled back by the speculation);
+            # anything structural (append/remove/dict keys) needs a real fork
+            if isinstance(obj, PObj) and isinstance(field, str):
+                self.spec_logs[-1].append((obj, field, obj.fields.get(field, _MISSING)))
+                return
+            if isinstance(obj, PList) and isinstance(field, int) and not isinstance(field, bool):
+                self.spec_logs[-1].append((obj, field, obj.items[field]))
+                return
             raise SpecAbort()
         self.writes.append((obj, field, getattr(node, "lineno", None)))
 
